@@ -735,13 +735,15 @@ func (c *c16Ctx) crashRun(w *c16Run) {
 					atomic.AddInt64(&c.Res.Evaluations, 1)
 					c.add(fam+".images", 1)
 					c.add(fam+".images_"+im.Kind, 1)
-					key := verifkit.Hash64(fmt.Sprintf("%s|%x|%x|%d|%d|%d|%d", w.cfg.Kind+w.cfg.WL, ih, dbh, meta.AckSnap, meta.AckMatch, meta.AckImport, w.L))
+					deep := im.Kind == "drop" || im.Kind == "torn"
+					// (deep is part of the key: which of two equal images is met first
+					// depends on the goroutine schedule, the depth 2 coverage must not)
+					key := verifkit.Hash64(fmt.Sprintf("%s|%x|%x|%d|%d|%d|%d|%v|%v", w.cfg.Kind+w.cfg.WL, ih, dbh, meta.AckSnap, meta.AckMatch, meta.AckImport, w.L, deep && im.Kind == "torn", deep))
 					if !c.seen.Add(key) {
 						continue
 					}
 					atomic.AddInt64(&c.Res.DistinctNontrivial, 1)
 					c.add(fam+".images_distinct", 1)
-					deep := im.Kind == "drop" || im.Kind == "torn" || thorough
 					got, f, recj, recEnd := cc.check(nil, deep)
 					if f != nil {
 						if c.report(f) {
@@ -773,7 +775,7 @@ func (c *c16Ctx) crashRun(w *c16Run) {
 							ih2 := verifkit.Hash64(journalfs.Dump(mem2, "/"))
 							atomic.AddInt64(&c.Res.Evaluations, 1)
 							c.add(fam+".images_depth2", 1)
-							k2 := verifkit.Hash64(fmt.Sprintf("%s|%x|%x|%d|%d|%d|%d", w.cfg.Kind+w.cfg.WL, ih2, dbh, meta.AckSnap, meta.AckMatch, meta.AckImport, w.L))
+							k2 := verifkit.Hash64(fmt.Sprintf("%s|%x|%x|%d|%d|%d|%d|d2", w.cfg.Kind+w.cfg.WL, ih2, dbh, meta.AckSnap, meta.AckMatch, meta.AckImport, w.L))
 							if !c.seen.Add(k2) {
 								continue
 							}
